@@ -153,7 +153,6 @@ Proof.
         -- destruct (plain_order_last G NE) as (pre & PL). fold order in PL. rewrite ORD in PL. apply app_inj_tail in PL. destruct PL as [_ PL].
            destruct DN as [_ RGE]. unfold ids in NXT. apply in_map_iff in NXT. destruct NXT as (x & EX & HX). rewrite Forall_forall in RGE. specialize (RGE x HX). lia.
 Qed.
-Print Assumptions wf_render_from_source.
 
 (* ---------- with the labels: the render check from the source ---------- *)
 From Pory Require Import LabelsUnique.
@@ -178,4 +177,3 @@ Proof.
     apply in_map_iff in Q. destruct Q as (c & <- & Hc). destruct DN as [_ RG]. rewrite Forall_forall in RG. specialize (RG c Hc). cbn in RG. lia.
   - apply (Permutation_NoDup (l := dlabs body)); [symmetry; exact (chunk_labels_are_source_labels body w HW HS)|exact ND].
 Qed.
-Print Assumptions render_check_from_source.
